@@ -24,6 +24,7 @@
 #include <etl/span.hpp>
 
 #include <array>
+#include <cstdarg>
 #include <limits>
 #include <memory>
 #include <type_traits>
@@ -82,16 +83,6 @@ auto want(char const* sub, Case const& k) -> bool
     g_ctl.matched = true;
     return true;
 }
-
-#define CHECK(sub, kase, cond, ...)                                                                                    \
-    do {                                                                                                               \
-        if (!(cond)) {                                                                                                 \
-            char buf_[640];                                                                                            \
-            std::snprintf(buf_, sizeof buf_, __VA_ARGS__);                                                             \
-            vf::mismatch(sub, kase, buf_);                                                                             \
-            return;                                                                                                    \
-        }                                                                                                              \
-    } while (0)
 
 // ------------------------------------------------------------------------------------------------ oracle (no templates)
 struct Shape {
@@ -293,6 +284,159 @@ private:
     std::size_t _n;
 };
 
+// ------------------------------------------------------------------------------------------------ failure reporting
+// Everything that formats text or compares against the oracle lives in ordinary (non-template) functions: the templates
+// below only call the library and copy plain numbers out of it.  (Instantiation + sanitizer instrumentation of the
+// per-type code is what the compile time of this harness is made of.)
+[[gnu::noinline, gnu::cold, gnu::format(printf, 3, 4)]] void fail(char const* sub, Case const& k, char const* fmt, ...)
+{
+    char buf[768];
+    va_list ap;
+    va_start(ap, fmt);
+    std::vsnprintf(buf, sizeof buf, fmt, ap);
+    va_end(ap);
+    vf::mismatch(sub, k, std::string(buf));
+}
+#define CHECK(sub, kase, cond, ...)                                                                                    \
+    do {                                                                                                               \
+        if (!(cond)) {                                                                                                 \
+            fail(sub, kase, __VA_ARGS__);                                                                              \
+            return;                                                                                                    \
+        }                                                                                                              \
+    } while (0)
+#define REQUIRE_OK(expr)                                                                                               \
+    do {                                                                                                               \
+        if (!(expr)) { return; }                                                                                       \
+    } while (0)
+
+// extents copied out of the library vs. the shape
+[[gnu::noinline]] auto ext_ok(char const* sub, Case const& k, Shape const& sh, ll const* got, char const* how) -> bool
+{
+    for (int r = 0; r < sh.rank; ++r) {
+        if (got[r] != sh.e[r]) {
+            fail(sub, k, "%s has extents %s, expected %s", how, arr_str(sh.rank, got).c_str(), arr_str(sh.rank, sh.e).c_str());
+            return false;
+        }
+    }
+    return true;
+}
+
+enum class Formula { right, left, strided };
+constexpr int max_points = 640; // 5^4 multi-indices at most
+ll g_offs[4][max_points];
+int g_vals[max_points];
+
+// offsets produced by the library for every multi-index (odometer order) vs. the closed form; range; uniqueness
+[[gnu::noinline]] auto offsets_ok(char const* sub, Case const& k, Shape const& sh, ll const* offs, ll rss, Formula f, ll const* st, char const* what) -> bool
+{
+    ll const P = prod(sh);
+    if (P == 0) { return true; }
+    std::vector<char> seen(static_cast<std::size_t>(rss > 0 ? rss : 0), 0);
+    int ix[4] = {0, 0, 0, 0};
+    int n     = 0;
+    do {
+        ll const got = offs[n++];
+        ll const exp = f == Formula::right ? off_right(sh, ix) : f == Formula::left ? off_left(sh, ix) : off_strided(sh, st, ix);
+        if (got != exp) {
+            fail(sub, k, "%s%s = %lld, closed form gives %lld%s%s", what, ix_str(sh.rank, ix).c_str(), got, exp, f == Formula::strided ? " with strides " : "", f == Formula::strided ? arr_str(sh.rank, st).c_str() : "");
+            return false;
+        }
+        if (got < 0 || got >= rss) {
+            fail(sub, k, "%s%s = %lld is outside [0, required_span_size = %lld)", what, ix_str(sh.rank, ix).c_str(), got, rss);
+            return false;
+        }
+        if (seen[static_cast<std::size_t>(got)] != 0) {
+            fail(sub, k, "%s%s = %lld was already produced by another multi-index (mapping not unique)", what, ix_str(sh.rank, ix).c_str(), got);
+            return false;
+        }
+        seen[static_cast<std::size_t>(got)] = 1;
+    } while (next_index(sh, ix));
+    return true;
+}
+
+// element addresses (as offsets from the data handle) and the values read through the view
+[[gnu::noinline]] auto view_ok(char const* sub, Case const& k, Shape const& sh, ll const* st, int nacc, char const* what) -> bool
+{
+    ll const P = prod(sh);
+    if (P == 0) { return true; }
+    static char const* const acc[3] = {"(i...)", "[array]", "[span]"};
+    int ix[4] = {0, 0, 0, 0};
+    int n     = 0;
+    do {
+        ll const exp = off_strided(sh, st, ix);
+        for (int a = 0; a < nacc; ++a) {
+            if (g_offs[a][n] != exp) {
+                fail(sub, k, "%s: &m%s at %s is data+%lld, expected data+%lld", what, acc[a], ix_str(sh.rank, ix).c_str(), g_offs[a][n], exp);
+                return false;
+            }
+        }
+        if (g_vals[n] != 1000 + static_cast<int>(exp)) {
+            fail(sub, k, "%s: m%s reads %d, the element at data+%lld holds %d", what, ix_str(sh.rank, ix).c_str(), g_vals[n], exp, 1000 + static_cast<int>(exp));
+            return false;
+        }
+        ++n;
+    } while (next_index(sh, ix));
+    return true;
+}
+
+struct Facts {
+    ll size;
+    bool empty;
+    std::size_t rank;
+    ll ext[4];
+    ll ext2[4];
+    std::size_t sext[4];
+    std::size_t sext2[4];
+    ll stride[4];
+    bool handle_ok;
+};
+[[gnu::noinline]] auto facts_ok(char const* sub, Case const& k, Shape const& sh, ll const* st, bool with_strides, Facts const& f, char const* what) -> bool
+{
+    ll const P = prod(sh);
+    if (f.size != P) {
+        fail(sub, k, "%s: size() = %lld, expected %lld", what, f.size, P);
+        return false;
+    }
+    if (f.empty != (P == 0)) {
+        fail(sub, k, "%s: empty() = %d for size %lld", what, static_cast<int>(f.empty), P);
+        return false;
+    }
+    if (f.rank != static_cast<std::size_t>(sh.rank)) {
+        fail(sub, k, "%s: rank() = %zu, expected %d", what, f.rank, sh.rank);
+        return false;
+    }
+    if (!f.handle_ok) {
+        fail(sub, k, "%s: data handle is not the pointer the view was constructed from", what);
+        return false;
+    }
+    for (int r = 0; r < sh.rank; ++r) {
+        if (f.ext[r] != sh.e[r] || f.ext2[r] != sh.e[r]) {
+            fail(sub, k, "%s: extent(%d) = %lld, extents().extent(%d) = %lld, expected %lld", what, r, f.ext[r], r, f.ext2[r], sh.e[r]);
+            return false;
+        }
+        if (f.sext[r] != f.sext2[r]) {
+            fail(sub, k, "%s: static_extent(%d) = %zu differs from the extents type (%zu)", what, r, f.sext[r], f.sext2[r]);
+            return false;
+        }
+        if (with_strides && f.stride[r] != st[r]) {
+            fail(sub, k, "%s: stride(%d) = %lld, expected %lld", what, r, f.stride[r], st[r]);
+            return false;
+        }
+    }
+    return true;
+}
+
+auto make_block(ll n) -> std::unique_ptr<int[]>
+{
+    auto p = std::unique_ptr<int[]>(new int[static_cast<std::size_t>(n)]);
+    for (ll i = 0; i < n; ++i) { p[static_cast<std::size_t>(i)] = 1000 + static_cast<int>(i); }
+    return p;
+}
+void last_index(Shape const& sh, int* ix)
+{
+    for (int r = 0; r < sh.rank; ++r) { ix[r] = static_cast<int>(sh.e[r]) - 1; }
+}
+
 // ------------------------------------------------------------------------------------------------ type helpers
 template <typename I>
 constexpr auto imax() -> unsigned long long
@@ -303,7 +447,7 @@ constexpr auto imax() -> unsigned long long
 template <typename E>
 constexpr auto dyn_positions()
 {
-    std::array<int, E::rank_dynamic() + 1> p{}; // +1: no zero-size std::array indexing headaches
+    std::array<int, E::rank_dynamic() + 1> p{}; // +1: never a zero-size std::array
     int n = 0;
     for (std::size_t i = 0; i < E::rank(); ++i) {
         if (E::static_extent(i) == D) { p[static_cast<std::size_t>(n++)] = static_cast<int>(i); }
@@ -334,29 +478,29 @@ struct transposed2<etl::extents<I, S0, S1>> {
     using type = etl::extents<I, S1, S0>;
 };
 
-// build an extents object from a run-time shape: rank-many arguments / dynamic-only arguments
-template <typename E, typename A, std::size_t... Is>
-auto make_all(Shape const& sh, std::index_sequence<Is...> /*unused*/) -> E
+// build an object X from a run-time shape: X(pre..., rank-many values) / X(pre..., dynamic-only values)
+template <typename X, typename A, std::size_t... Is, typename... Pre>
+auto make_all_impl(Shape const& sh, std::index_sequence<Is...> /*unused*/, Pre... pre) -> X
 {
-    return E(static_cast<A>(sh.e[Is])...);
+    return X(pre..., static_cast<A>(sh.e[Is])...);
 }
-template <typename E, typename A, std::size_t... Js>
-auto make_dyn(Shape const& sh, std::index_sequence<Js...> /*unused*/) -> E
+template <typename X, typename E, typename A, std::size_t... Js, typename... Pre>
+auto make_dyn_impl(Shape const& sh, std::index_sequence<Js...> /*unused*/, Pre... pre) -> X
 {
     [[maybe_unused]] constexpr auto dp = dyn_positions<E>();
-    return E(static_cast<A>(sh.e[dp[Js]])...);
+    return X(pre..., static_cast<A>(sh.e[dp[Js]])...);
 }
 template <typename E, typename A>
-auto make_all(Shape const& sh) -> E
+[[gnu::noinline]] auto make_all(Shape const& sh) -> E
 {
-    return make_all<E, A>(sh, std::make_index_sequence<E::rank()>{});
+    return make_all_impl<E, A>(sh, std::make_index_sequence<E::rank()>{});
 }
 template <typename E, typename A>
 auto make_dyn(Shape const& sh) -> E
 {
-    return make_dyn<E, A>(sh, std::make_index_sequence<E::rank_dynamic()>{});
+    return make_dyn_impl<E, E, A>(sh, std::make_index_sequence<E::rank_dynamic()>{});
 }
-// is the run-time shape admissible for extents type E2 (static extents match, everything representable)?
+// is the run-time shape admissible for extents type E2 (static extents match, index space representable)?
 template <typename E2>
 auto shape_fits(Shape const& sh) -> bool
 {
@@ -366,22 +510,9 @@ auto shape_fits(Shape const& sh) -> bool
     return static_cast<unsigned long long>(prod(sh)) <= imax<typename E2::index_type>();
 }
 template <typename E>
-auto extents_equal(E const& e, Shape const& sh) -> bool
+[[gnu::noinline]] void get_ext(E const& e, ll* out)
 {
-    for (std::size_t r = 0; r < E::rank(); ++r) {
-        if (static_cast<ll>(e.extent(r)) != sh.e[r]) { return false; }
-    }
-    return true;
-}
-template <typename E>
-auto extents_str(E const& e) -> std::string
-{
-    std::string s = "[";
-    for (std::size_t r = 0; r < E::rank(); ++r) {
-        if (r != 0) { s += ","; }
-        s += std::to_string(static_cast<ll>(e.extent(r)));
-    }
-    return s + "]";
+    for (std::size_t r = 0; r < E::rank(); ++r) { out[r] = static_cast<ll>(e.extent(r)); }
 }
 template <typename I, typename F, std::size_t... Is>
 decltype(auto) call_ix_impl(F& f, int const* ix, std::index_sequence<Is...> /*unused*/)
@@ -392,6 +523,61 @@ template <typename I, std::size_t R, typename F>
 decltype(auto) call_ix(F& f, int const* ix)
 {
     return call_ix_impl<I>(f, ix, std::make_index_sequence<R>{});
+}
+// all offsets of a mapping, in odometer order
+template <typename I, std::size_t R, typename M>
+[[gnu::noinline]] void collect_offsets(M const& m, Shape const& sh, ll* out)
+{
+    if (prod(sh) == 0) { return; }
+    int ix[4] = {0, 0, 0, 0};
+    int n     = 0;
+    do {
+        out[n++] = static_cast<ll>(call_ix<I, R>(m, ix));
+    } while (next_index(sh, ix));
+}
+// all element addresses of a view (as offsets from base) through (i...), [array], [span]; values read through (i...)
+// only when the address is inside the block [base, base+rss) (otherwise the mismatch is reported by view_ok, not by ASan)
+template <typename I, std::size_t R, bool AllForms = false, typename V>
+[[gnu::noinline]] auto collect_view(V& m, int const* base, Shape const& sh, ll rss) -> int
+{
+    constexpr int forms = (R > 0 && AllForms) ? 3 : 1;
+    if (prod(sh) == 0) { return forms; }
+    int ix[4] = {0, 0, 0, 0};
+    int n     = 0;
+    do {
+        auto& ref    = call_ix<I, R>(m, ix);
+        ll const o   = static_cast<ll>(&ref - base);
+        g_offs[0][n] = o;
+        g_vals[n]    = o >= 0 && o < rss ? ref : -1;
+        if constexpr (forms == 3) {
+            etl::array<I, R> ai{};
+            for (std::size_t r = 0; r < R; ++r) { ai[r] = static_cast<I>(ix[r]); }
+            etl::span<I const, R> const si(ai);
+            g_offs[1][n] = static_cast<ll>(&m[ai] - base);
+            g_offs[2][n] = static_cast<ll>(&m[si] - base);
+        }
+        ++n;
+    } while (next_index(sh, ix));
+    return forms;
+}
+template <typename V>
+[[gnu::noinline]] auto collect_facts(V const& m, void const* handle, void const* expected_handle, bool with_strides) -> Facts
+{
+    Facts f{};
+    f.size      = static_cast<ll>(m.size());
+    f.empty     = m.empty();
+    f.rank      = V::rank();
+    f.handle_ok = handle == expected_handle;
+    for (std::size_t r = 0; r < V::rank(); ++r) {
+        f.ext[r]   = static_cast<ll>(m.extent(r));
+        f.ext2[r]  = static_cast<ll>(m.extents().extent(r));
+        f.sext[r]  = V::static_extent(r);
+        f.sext2[r] = V::extents_type::static_extent(r);
+        if constexpr (V::rank() > 0) { // (mapping::stride requires rank > 0)
+            if (with_strides) { f.stride[r] = static_cast<ll>(m.stride(r)); }
+        }
+    }
+    return f;
 }
 
 // compile-time probes: "is this member defined (usable in a constant expression)?"  false for declared-only functions
@@ -409,50 +595,60 @@ void check_extents(Case const& k, Shape const& sh)
     constexpr auto RD     = E::rank_dynamic();
     char const* const sub = "extents";
     vf::Flight<Case> fl(sub, k);
+    ll g[4] = {0, 0, 0, 0};
+#define EXT_IS(how, obj)                                                                                               \
+    do {                                                                                                               \
+        get_ext(obj, g);                                                                                               \
+        REQUIRE_OK(ext_ok(sub, k, sh, g, how));                                                                        \
+    } while (0)
 
-    // static facts
     {
         std::size_t nd = 0;
-        for (std::size_t r = 0; r < R; ++r) { nd += E::static_extent(r) == D ? 1U : 0U; }
+        for (std::size_t r = 0; r < R; ++r) {
+            nd += E::static_extent(r) == D ? 1U : 0U;
+            CHECK(sub, k, E::static_extent(r) == D || static_cast<ll>(E::static_extent(r)) == sh.e[r], "static_extent(%zu) = %zu", r, E::static_extent(r));
+        }
         CHECK(sub, k, nd == RD && R == static_cast<std::size_t>(sh.rank), "rank()/rank_dynamic() = %zu/%zu, pattern has %d/%zu", R, RD, sh.rank, nd);
     }
     // (a) dynamic-only arguments, (b) rank-many arguments: variadic (int and IndexType), etl::array, etl::span
     E const a1 = make_dyn<E, int>(sh);
-    CHECK(sub, k, extents_equal(a1, sh), "extents(dynamic-only ints) has extents %s, expected %s", extents_str(a1).c_str(), arr_str(sh.rank, sh.e).c_str());
+    EXT_IS("extents(dynamic-only ints)", a1);
     E const a2 = make_all<E, int>(sh);
-    CHECK(sub, k, extents_equal(a2, sh), "extents(rank-many ints) has extents %s, expected %s", extents_str(a2).c_str(), arr_str(sh.rank, sh.e).c_str());
+    EXT_IS("extents(rank-many ints)", a2);
     E const a3 = make_all<E, I>(sh);
-    CHECK(sub, k, extents_equal(a3, sh), "extents(rank-many IndexType values) has extents %s, expected %s", extents_str(a3).c_str(), arr_str(sh.rank, sh.e).c_str());
+    EXT_IS("extents(rank-many IndexType values)", a3);
     {
         constexpr auto dp = dyn_positions<E>();
         etl::array<I, RD> ad{};
         etl::array<std::size_t, R> aa{};
         for (std::size_t j = 0; j < RD; ++j) { ad[j] = static_cast<I>(sh.e[dp[j]]); }
         for (std::size_t r = 0; r < R; ++r) { aa[r] = static_cast<std::size_t>(sh.e[r]); }
-        E const b1(ad);
-        CHECK(sub, k, extents_equal(b1, sh), "extents(array<IndexType, rank_dynamic>) has extents %s, expected %s", extents_str(b1).c_str(), arr_str(sh.rank, sh.e).c_str());
-        E const b2(aa);
-        CHECK(sub, k, extents_equal(b2, sh), "extents(array<size_t, rank>) has extents %s, expected %s", extents_str(b2).c_str(), arr_str(sh.rank, sh.e).c_str());
         etl::span<I const, RD> const sd(ad);
         etl::span<std::size_t const, R> const sa(aa);
+        E const b1(ad);
+        EXT_IS("extents(array<IndexType, rank_dynamic>)", b1);
+        E const b2(aa);
+        EXT_IS("extents(array<size_t, rank>)", b2);
         E const b3(sd);
-        CHECK(sub, k, extents_equal(b3, sh), "extents(span<IndexType const, rank_dynamic>) has extents %s, expected %s", extents_str(b3).c_str(), arr_str(sh.rank, sh.e).c_str());
+        EXT_IS("extents(span<IndexType const, rank_dynamic>)", b3);
         E const b4(sa);
-        CHECK(sub, k, extents_equal(b4, sh), "extents(span<size_t const, rank>) has extents %s, expected %s", extents_str(b4).c_str(), arr_str(sh.rank, sh.e).c_str());
-        CHECK(sub, k, a1 == a2 && a2 == b1 && b1 == b2 && b3 == b4 && !(a1 != b4), "operator== between equal extents objects is false");
+        EXT_IS("extents(span<size_t const, rank>)", b4);
+        bool const eq = a1 == a2 && a2 == b1 && b3 == b4 && !(a1 != b4);
+        CHECK(sub, k, eq, "operator== between equal extents objects is false");
     }
-    // static_extent / extent / products
-    for (std::size_t r = 0; r < R; ++r) {
-        CHECK(sub, k, E::static_extent(r) == D || static_cast<ll>(E::static_extent(r)) == sh.e[r], "static_extent(%zu) = %zu", r, E::static_extent(r));
-    }
-    for (std::size_t r = 0; r <= R; ++r) {
-        ll f = 1;
-        for (std::size_t q = 0; q < r; ++q) { f *= sh.e[q]; }
-        CHECK(sub, k, static_cast<ll>(a2.fwd_prod_of_extents(r)) == f, "fwd_prod_of_extents(%zu) = %lld, expected %lld", r, static_cast<ll>(a2.fwd_prod_of_extents(r)), f);
-        if (r < R) {
-            ll b = 1;
-            for (std::size_t q = r + 1; q < R; ++q) { b *= sh.e[q]; }
-            CHECK(sub, k, static_cast<ll>(a2.rev_prod_of_extents(r)) == b, "rev_prod_of_extents(%zu) = %lld, expected %lld", r, static_cast<ll>(a2.rev_prod_of_extents(r)), b);
+    // products
+    {
+        ll f[5] = {0, 0, 0, 0, 0};
+        ll b[4] = {0, 0, 0, 0};
+        for (std::size_t r = 0; r <= R; ++r) { f[r] = static_cast<ll>(a2.fwd_prod_of_extents(r)); }
+        for (std::size_t r = 0; r < R; ++r) { b[r] = static_cast<ll>(a2.rev_prod_of_extents(r)); }
+        for (std::size_t r = 0; r <= R; ++r) {
+            ll ef = 1;
+            ll eb = 1;
+            for (std::size_t q = 0; q < r; ++q) { ef *= sh.e[q]; }
+            for (std::size_t q = r + 1; q < R; ++q) { eb *= sh.e[q]; }
+            CHECK(sub, k, f[r] == ef, "fwd_prod_of_extents(%zu) = %lld, expected %lld", r, f[r], ef);
+            CHECK(sub, k, r == R || b[r] == eb, "rev_prod_of_extents(%zu) = %lld, expected %lld", r, b[r], eb);
         }
     }
     // converting constructors: E -> dextents<J>, dextents<J> -> E, E <-> flipped pattern (when the shape fits)
@@ -461,24 +657,25 @@ void check_extents(Case const& k, Shape const& sh)
     using FJ = typename flipped<J, E>::type;
     {
         DJ const d(a2);
-        CHECK(sub, k, extents_equal(d, sh), "dextents<J>(extents) has extents %s, expected %s", extents_str(d).c_str(), arr_str(sh.rank, sh.e).c_str());
-        CHECK(sub, k, d == a2 && a2 == d, "operator== of converted extents is false");
+        EXT_IS("dextents<J>(extents)", d);
+        bool const eq = d == a2 && a2 == d;
+        CHECK(sub, k, eq, "operator== between extents and its dextents<J> conversion is false");
         E const back(d);
-        CHECK(sub, k, extents_equal(back, sh), "extents(dextents<J>) has extents %s, expected %s", extents_str(back).c_str(), arr_str(sh.rank, sh.e).c_str());
-        // a neighbouring shape must compare unequal
-        for (std::size_t r = 0; r < R; ++r) {
+        EXT_IS("extents(dextents<J>)", back);
+        for (std::size_t r = 0; r < R; ++r) { // a neighbouring shape must compare unequal
             Shape other = sh;
             other.e[r]  = sh.e[r] == 1 ? 2 : 1;
             DJ const o  = make_all<DJ, int>(other);
-            CHECK(sub, k, !(o == a2) && a2 != o, "operator== is true for extents that differ in dimension %zu", r);
+            bool const ne = !(o == a2) && a2 != o;
+            CHECK(sub, k, ne, "operator== is true for extents that differ in dimension %zu", r);
         }
     }
     if constexpr (R > 0) {
         if (shape_fits<FJ>(sh)) {
             FJ const f(a2);
-            CHECK(sub, k, extents_equal(f, sh), "flipped-pattern extents constructed from extents has %s, expected %s", extents_str(f).c_str(), arr_str(sh.rank, sh.e).c_str());
+            EXT_IS("flipped-pattern extents (static<->dynamic swapped) constructed from extents", f);
             E const back(f);
-            CHECK(sub, k, extents_equal(back, sh), "extents constructed from flipped-pattern extents has %s, expected %s", extents_str(back).c_str(), arr_str(sh.rank, sh.e).c_str());
+            EXT_IS("extents constructed from flipped-pattern extents (static<->dynamic swapped)", back);
             vf::count("convert.flipped_pattern");
         }
     }
@@ -486,24 +683,6 @@ void check_extents(Case const& k, Shape const& sh)
 }
 
 // ------------------------------------------------------------------------------------------------ 2. layout_left / layout_right
-// sweep every multi-index: offset == oracle, < rss, pairwise distinct
-template <typename I, std::size_t R, typename M, typename Oracle>
-auto sweep_mapping(M const& m, Shape const& sh, ll rss, Oracle const& oracle) -> std::string
-{
-    std::vector<char> seen(static_cast<std::size_t>(rss), 0);
-    int ix[4] = {0, 0, 0, 0};
-    if (prod(sh) == 0) { return ""; }
-    do {
-        ll const got = static_cast<ll>(call_ix<I, R>(m, ix));
-        ll const exp = oracle(ix);
-        if (got != exp) { return "mapping" + ix_str(sh.rank, ix) + " = " + std::to_string(got) + ", closed form gives " + std::to_string(exp); }
-        if (got < 0 || got >= rss) { return "mapping" + ix_str(sh.rank, ix) + " = " + std::to_string(got) + " is outside [0, required_span_size=" + std::to_string(rss) + ")"; }
-        if (seen[static_cast<std::size_t>(got)] != 0) { return "mapping" + ix_str(sh.rank, ix) + " = " + std::to_string(got) + " was already produced by another multi-index (not unique)"; }
-        seen[static_cast<std::size_t>(got)] = 1;
-    } while (next_index(sh, ix));
-    return "";
-}
-
 template <typename E, typename L>
 void check_lr(Case const& k, Shape const& sh)
 {
@@ -513,30 +692,34 @@ void check_lr(Case const& k, Shape const& sh)
     constexpr bool left   = std::is_same_v<L, etl::layout_left>;
     char const* const sub = left ? "layout_left" : "layout_right";
     vf::Flight<Case> fl(sub, k);
+    ll g[4] = {0, 0, 0, 0};
 
     E const e = make_all<E, int>(sh);
     M const m(e);
     ll const P = prod(sh);
     ll st[4]   = {0, 0, 0, 0};
     left ? left_strides(sh, st) : right_strides(sh, st);
-    CHECK(sub, k, extents_equal(m.extents(), sh), "mapping.extents() = %s, expected %s", extents_str(m.extents()).c_str(), arr_str(sh.rank, sh.e).c_str());
+    EXT_IS("mapping.extents()", m.extents());
     CHECK(sub, k, static_cast<ll>(m.required_span_size()) == P, "required_span_size() = %lld, expected %lld", static_cast<ll>(m.required_span_size()), P);
     if constexpr (R > 0) {
         for (std::size_t r = 0; r < R; ++r) { CHECK(sub, k, static_cast<ll>(m.stride(r)) == st[r], "stride(%zu) = %lld, expected %lld", r, static_cast<ll>(m.stride(r)), st[r]); }
     }
-    CHECK(sub, k, M::is_always_unique() && M::is_always_exhaustive() && M::is_always_strided() && m.is_unique() && m.is_exhaustive() && m.is_strided(), "is_(always_)unique/exhaustive/strided not all true");
-    auto const d = sweep_mapping<I, R>(m, sh, P, [&](int const* ix) { return left ? off_left(sh, ix) : off_right(sh, ix); });
-    CHECK(sub, k, d.empty(), "%s", d.c_str());
+    bool const flags = M::is_always_unique() && M::is_always_exhaustive() && M::is_always_strided() && m.is_unique() && m.is_exhaustive() && m.is_strided();
+    CHECK(sub, k, flags, "is_(always_)unique/exhaustive/strided not all true");
+    collect_offsets<I, R>(m, sh, g_offs[0]);
+    REQUIRE_OK(offsets_ok(sub, k, sh, g_offs[0], P, left ? Formula::left : Formula::right, nullptr, "mapping"));
     {
-        // default-constructed mapping of an all-static type / copy / assignment / operator==
         M m2(m);
         M m3;
         m3 = m;
-        CHECK(sub, k, extents_equal(m2.extents(), sh) && extents_equal(m3.extents(), sh) && m2 == m && m3 == m, "copy / assignment of a mapping changes its extents");
+        EXT_IS("copy of a mapping", m2.extents());
+        EXT_IS("assigned mapping", m3.extents());
+        bool const eq = m2 == m && m3 == m;
+        CHECK(sub, k, eq, "operator== of a mapping and its copy is false");
         if constexpr (E::rank_dynamic() == 0) {
             M const m0;
-            CHECK(sub, k, extents_equal(m0.extents(), sh) && static_cast<ll>(m0.required_span_size()) == P, "default-constructed mapping of all-static extents: extents %s rss %lld", extents_str(m0.extents()).c_str(),
-                static_cast<ll>(m0.required_span_size()));
+            EXT_IS("default-constructed mapping of all-static extents", m0.extents());
+            CHECK(sub, k, static_cast<ll>(m0.required_span_size()) == P, "default-constructed mapping: required_span_size() = %lld, expected %lld", static_cast<ll>(m0.required_span_size()), P);
         }
     }
     // converting constructors that are defined: same layout from other extents; left <-> right for rank <= 1
@@ -544,25 +727,28 @@ void check_lr(Case const& k, Shape const& sh)
     using DJ = etl::dextents<J, R>;
     {
         typename L::template mapping<DJ> const c(m);
-        CHECK(sub, k, extents_equal(c.extents(), sh) && static_cast<ll>(c.required_span_size()) == P && c == m, "mapping<dextents<J>>(mapping<E>): extents %s rss %lld", extents_str(c.extents()).c_str(),
-            static_cast<ll>(c.required_span_size()));
+        EXT_IS("mapping<dextents<J>>(mapping<E>)", c.extents());
+        bool const eq = c == m;
+        CHECK(sub, k, eq && static_cast<ll>(c.required_span_size()) == P, "mapping<dextents<J>>(mapping<E>): operator== %d, required_span_size() = %lld, expected %lld", static_cast<int>(eq), static_cast<ll>(c.required_span_size()), P);
         M const back(c);
-        CHECK(sub, k, extents_equal(back.extents(), sh) && static_cast<ll>(back.required_span_size()) == P, "mapping<E>(mapping<dextents<J>>): extents %s rss %lld", extents_str(back.extents()).c_str(),
-            static_cast<ll>(back.required_span_size()));
-        int ix[4] = {0, 0, 0, 0};
+        EXT_IS("mapping<E>(mapping<dextents<J>>)", back.extents());
         if (P > 0) {
-            for (int r = 0; r < sh.rank; ++r) { ix[r] = static_cast<int>(sh.e[r]) - 1; }
+            int ix[4] = {0, 0, 0, 0};
+            last_index(sh, ix);
             ll const o1 = static_cast<ll>(call_ix<J, R>(c, ix));
             ll const o2 = static_cast<ll>(call_ix<I, R>(back, ix));
-            CHECK(sub, k, o1 == P - 1 && o2 == P - 1, "converted mapping sends the last multi-index to %lld / %lld, expected %lld", o1, o2, P - 1);
+            CHECK(sub, k, o1 == P - 1 && o2 == P - 1, "converted mappings send the last multi-index to %lld / %lld, expected %lld", o1, o2, P - 1);
         }
     }
     if constexpr (R <= 1) {
         using O = std::conditional_t<left, etl::layout_right, etl::layout_left>;
         typename O::template mapping<DJ> const o(m);
-        CHECK(sub, k, extents_equal(o.extents(), sh) && static_cast<ll>(o.required_span_size()) == P, "rank<=1 conversion to the other layout: extents %s", extents_str(o.extents()).c_str());
+        EXT_IS("rank<=1 conversion to the other layout", o.extents());
         if constexpr (R == 1) {
-            if (P > 0) { CHECK(sub, k, static_cast<ll>(o(static_cast<J>(P - 1))) == P - 1 && static_cast<ll>(o.stride(0)) == 1, "rank-1 conversion to the other layout maps %lld to %lld", P - 1, static_cast<ll>(o(static_cast<J>(P - 1)))); }
+            if (P > 0) {
+                ll const last = static_cast<ll>(o(static_cast<J>(P - 1)));
+                CHECK(sub, k, last == P - 1 && static_cast<ll>(o.stride(0)) == 1, "rank-1 conversion to the other layout maps %lld to %lld", P - 1, last);
+            }
         }
     }
     vf::eval(sub);
@@ -577,6 +763,7 @@ void check_stride(Case const& k, Shape const& sh, StrideInfo const& si)
     constexpr auto R      = E::rank();
     char const* const sub = "layout_stride";
     vf::Flight<Case> fl(sub, k);
+    ll g[4]      = {0, 0, 0, 0};
     E const e    = make_all<E, int>(sh);
     ll const rss = rss_strided(sh, si.s);
     if constexpr (R == 0) {
@@ -591,20 +778,24 @@ void check_stride(Case const& k, Shape const& sh, StrideInfo const& si)
             sa[r] = static_cast<I>(si.s[r]);
             sz[r] = static_cast<std::size_t>(si.s[r]);
         }
-        M const m(e, sa);
         etl::span<std::size_t const, R> const szs(sz);
+        M const m(e, sa);
         M const ms(e, szs);
-        CHECK(sub, k, extents_equal(m.extents(), sh) && extents_equal(ms.extents(), sh), "mapping.extents() = %s, expected %s", extents_str(m.extents()).c_str(), arr_str(sh.rank, sh.e).c_str());
+        EXT_IS("layout_stride mapping(extents, array).extents()", m.extents());
+        EXT_IS("layout_stride mapping(extents, span).extents()", ms.extents());
         auto const got = m.strides();
         for (std::size_t r = 0; r < R; ++r) {
-            CHECK(sub, k, static_cast<ll>(m.stride(r)) == si.s[r] && static_cast<ll>(got[r]) == si.s[r] && static_cast<ll>(ms.stride(r)) == si.s[r], "stride(%zu) = %lld / strides()[%zu] = %lld / from span %lld, constructed with %lld", r,
-                static_cast<ll>(m.stride(r)), r, static_cast<ll>(got[r]), static_cast<ll>(ms.stride(r)), si.s[r]);
+            ll const s1 = static_cast<ll>(m.stride(r));
+            ll const s2 = static_cast<ll>(got[r]);
+            ll const s3 = static_cast<ll>(ms.stride(r));
+            CHECK(sub, k, s1 == si.s[r] && s2 == si.s[r] && s3 == si.s[r], "stride(%zu) = %lld / strides()[%zu] = %lld / built from a span: %lld; constructed with %lld", r, s1, r, s2, s3, si.s[r]);
         }
-        CHECK(sub, k, M::is_always_unique() && M::is_always_strided() && !M::is_always_exhaustive() && m.is_unique() && m.is_strided(), "is_(always_)unique/strided/exhaustive constants wrong");
+        bool const flags = M::is_always_unique() && M::is_always_strided() && !M::is_always_exhaustive() && m.is_unique() && m.is_strided();
+        CHECK(sub, k, flags, "is_(always_)unique/strided/exhaustive constants wrong");
         if constexpr (has_defined_rss<M>) { CHECK(sub, k, static_cast<ll>(m.required_span_size()) == rss, "required_span_size() = %lld, expected %lld", static_cast<ll>(m.required_span_size()), rss); }
         if constexpr (has_defined_is_exhaustive<M>) { CHECK(sub, k, m.is_exhaustive() == (rss == prod(sh)), "is_exhaustive() = %d, span %lld size %lld", static_cast<int>(m.is_exhaustive()), rss, prod(sh)); }
-        auto const d = sweep_mapping<I, R>(m, sh, rss, [&](int const* ix) { return off_strided(sh, si.s, ix); });
-        CHECK(sub, k, d.empty(), "%s (strides %s)", d.c_str(), arr_str(sh.rank, si.s).c_str());
+        collect_offsets<I, R>(m, sh, g_offs[0]);
+        REQUIRE_OK(offsets_ok(sub, k, sh, g_offs[0], rss, Formula::strided, si.s, "mapping"));
         M m2(ms);
         M m3;
         m3 = m;
@@ -614,53 +805,6 @@ void check_stride(Case const& k, Shape const& sh, StrideInfo const& si)
 }
 
 // ------------------------------------------------------------------------------------------------ 4. mdspan
-// every multi-index: &m(i...) == data + oracle offset, and the value stored there is read back (ASan: exact-size block)
-template <typename I, std::size_t R, typename MD>
-auto sweep_view(MD& m, int const* base, Shape const& sh, ll const* st) -> std::string
-{
-    int ix[4] = {0, 0, 0, 0};
-    if (prod(sh) == 0) { return ""; }
-    do {
-        ll const exp  = off_strided(sh, st, ix);
-        auto& ref     = call_ix<I, R>(m, ix);
-        ll const got  = static_cast<ll>(&ref - base);
-        if (got != exp) { return "&m" + ix_str(sh.rank, ix) + " is data+" + std::to_string(got) + ", expected data+" + std::to_string(exp); }
-        if (ref != 1000 + static_cast<int>(exp)) { return "m" + ix_str(sh.rank, ix) + " reads " + std::to_string(ref) + ", the element at data+" + std::to_string(exp) + " holds " + std::to_string(1000 + static_cast<int>(exp)); }
-        if constexpr (R > 0) {
-            etl::array<I, R> ai{};
-            for (std::size_t r = 0; r < R; ++r) { ai[r] = static_cast<I>(ix[r]); }
-            auto& r2 = m[ai];
-            etl::span<I const, R> const si(ai);
-            auto& r3 = m[si];
-            if (&r2 != &ref || &r3 != &ref) { return "m[array]/m[span] at " + ix_str(sh.rank, ix) + " refer to data+" + std::to_string(static_cast<ll>(&r2 - base)) + "/data+" + std::to_string(static_cast<ll>(&r3 - base)) + ", m(i...) to data+" + std::to_string(got); }
-        }
-    } while (next_index(sh, ix));
-    return "";
-}
-auto make_block(ll n) -> std::unique_ptr<int[]>
-{
-    auto p = std::unique_ptr<int[]>(new int[static_cast<std::size_t>(n)]);
-    for (ll i = 0; i < n; ++i) { p[static_cast<std::size_t>(i)] = 1000 + static_cast<int>(i); }
-    return p;
-}
-template <typename MD>
-auto view_facts(MD const& m, Shape const& sh, ll const* st, bool with_strides) -> std::string
-{
-    ll const P = prod(sh);
-    if (static_cast<ll>(m.size()) != P) { return "size() = " + std::to_string(static_cast<ll>(m.size())) + ", expected " + std::to_string(P); }
-    if (m.empty() != (P == 0)) { return "empty() = " + std::to_string(static_cast<int>(m.empty())) + " for size " + std::to_string(P); }
-    if (MD::rank() != static_cast<std::size_t>(sh.rank)) { return "rank() wrong"; }
-    for (std::size_t r = 0; r < MD::rank(); ++r) {
-        if (static_cast<ll>(m.extent(r)) != sh.e[r]) { return "extent(" + std::to_string(r) + ") = " + std::to_string(static_cast<ll>(m.extent(r))) + ", expected " + std::to_string(sh.e[r]); }
-        if (static_cast<ll>(m.extents().extent(r)) != sh.e[r]) { return "extents().extent(" + std::to_string(r) + ") = " + std::to_string(static_cast<ll>(m.extents().extent(r))) + ", expected " + std::to_string(sh.e[r]); }
-        if (MD::static_extent(r) != MD::extents_type::static_extent(r)) { return "static_extent(" + std::to_string(r) + ") differs from the extents type"; }
-        if constexpr (MD::rank() > 0) { // (mapping::stride requires rank > 0)
-            if (with_strides && static_cast<ll>(m.stride(r)) != st[r]) { return "stride(" + std::to_string(r) + ") = " + std::to_string(static_cast<ll>(m.stride(r))) + ", expected " + std::to_string(st[r]); }
-        }
-    }
-    return "";
-}
-
 template <typename E, typename L>
 void check_mdspan_lr(Case const& k, Shape const& sh)
 {
@@ -677,55 +821,53 @@ void check_mdspan_lr(Case const& k, Shape const& sh)
     auto blk  = make_block(P);
     int* base = blk.get();
     E const e = make_all<E, int>(sh);
+    int lastix[4] = {0, 0, 0, 0};
+    last_index(sh, lastix);
+#define VIEW_FACTS(what, v)                                                                                            \
+    do {                                                                                                               \
+        REQUIRE_OK(facts_ok(sub, k, sh, st, R > 0, collect_facts(v, v.data_handle(), base, R > 0), what));              \
+        if (P > 0) {                                                                                                   \
+            ll const lo = static_cast<ll>(&call_ix<I, R>(v, lastix) - base);                                            \
+            CHECK(sub, k, lo == P - 1, "%s sends the last multi-index to data+%lld, expected data+%lld", what, lo, P - 1); \
+        }                                                                                                              \
+    } while (0)
+
     MD const m(base, M(e));
-    auto d = view_facts(m, sh, st, R > 0);
-    CHECK(sub, k, d.empty(), "mdspan(ptr, mapping): %s", d.c_str());
-    CHECK(sub, k, m.data_handle() == base && m.is_unique() && m.is_exhaustive() && m.is_strided() && MD::is_always_unique(), "data_handle()/is_unique()... wrong");
-    d = sweep_view<I, R>(m, base, sh, st);
-    CHECK(sub, k, d.empty(), "%s", d.c_str());
+    VIEW_FACTS("mdspan(ptr, mapping)", m);
+    bool const flags = m.is_unique() && m.is_exhaustive() && m.is_strided() && MD::is_always_unique() && MD::is_always_exhaustive() && MD::is_always_strided();
+    CHECK(sub, k, flags, "mdspan is_(always_)unique/exhaustive/strided not all true");
+    int const nacc = collect_view<I, R, true>(m, base, sh, P);
+    REQUIRE_OK(view_ok(sub, k, sh, st, nacc, "mdspan(ptr, mapping)"));
     // the other constructors describe the same view
     {
         MD const c1(base, e);
-        d = view_facts(c1, sh, st, R > 0);
-        CHECK(sub, k, d.empty() && c1.data_handle() == base, "mdspan(ptr, extents): %s", d.c_str());
-        MD const c2 = [&]<std::size_t... Is>(std::index_sequence<Is...>) { return MD(base, static_cast<int>(sh.e[Is])...); }(std::make_index_sequence<R>{});
-        d           = view_facts(c2, sh, st, R > 0);
-        CHECK(sub, k, d.empty() && c2.data_handle() == base, "mdspan(ptr, rank-many ints): %s", d.c_str());
-        constexpr auto dp = dyn_positions<E>();
-        MD const c3       = [&]<std::size_t... Js>(std::index_sequence<Js...>) { return MD(base, static_cast<I>(sh.e[dp[Js]])...); }(std::make_index_sequence<E::rank_dynamic()>{});
-        d                 = view_facts(c3, sh, st, R > 0);
-        CHECK(sub, k, d.empty() && c3.data_handle() == base, "mdspan(ptr, dynamic-only values): %s", d.c_str());
+        VIEW_FACTS("mdspan(ptr, extents)", c1);
+        MD const c2 = make_all_impl<MD, int>(sh, std::make_index_sequence<R>{}, base);
+        VIEW_FACTS("mdspan(ptr, rank-many ints)", c2);
+        MD const c3 = make_dyn_impl<MD, E, I>(sh, std::make_index_sequence<E::rank_dynamic()>{}, base);
+        VIEW_FACTS("mdspan(ptr, dynamic-only IndexType values)", c3);
         etl::array<I, R> aa{};
         for (std::size_t r = 0; r < R; ++r) { aa[r] = static_cast<I>(sh.e[r]); }
-        MD const c4(base, aa);
-        d = view_facts(c4, sh, st, R > 0);
-        CHECK(sub, k, d.empty() && c4.data_handle() == base, "mdspan(ptr, array<IndexType, rank>): %s", d.c_str());
         etl::span<I const, R> const sp(aa);
+        MD const c4(base, aa);
+        VIEW_FACTS("mdspan(ptr, array<IndexType, rank>)", c4);
         MD const c5(base, sp);
-        d = view_facts(c5, sh, st, R > 0);
-        CHECK(sub, k, d.empty() && c5.data_handle() == base, "mdspan(ptr, span<IndexType const, rank>): %s", d.c_str());
+        VIEW_FACTS("mdspan(ptr, span<IndexType const, rank>)", c5);
         MD const c6(base, M(e), etl::default_accessor<int>{});
-        d = view_facts(c6, sh, st, R > 0);
-        CHECK(sub, k, d.empty() && c6.data_handle() == base, "mdspan(ptr, mapping, accessor): %s", d.c_str());
-        if (P > 0) {
-            int ix[4] = {0, 0, 0, 0};
-            for (int r = 0; r < sh.rank; ++r) { ix[r] = static_cast<int>(sh.e[r]) - 1; }
-            for (MD const* c : {&c1, &c2, &c3, &c4, &c5, &c6}) {
-                ll const got = static_cast<ll>(&call_ix<I, R>(*c, ix) - base);
-                CHECK(sub, k, got == P - 1, "a differently constructed mdspan sends the last multi-index to data+%lld, expected data+%lld", got, P - 1);
-            }
-        }
+        VIEW_FACTS("mdspan(ptr, mapping, accessor)", c6);
+        MD const c7(c6);
+        VIEW_FACTS("copy of an mdspan", c7);
     }
     // converting constructor: element const, dextents<J>
     {
         using J  = typename partner<I>::type;
         using MC = etl::mdspan<int const, etl::dextents<J, R>, L>;
         MC const c(m);
-        d = view_facts(c, sh, st, R > 0);
-        CHECK(sub, k, d.empty() && c.data_handle() == base, "mdspan<T const, dextents<J>>(mdspan): %s", d.c_str());
-        d = sweep_view<J, R>(c, base, sh, st);
-        CHECK(sub, k, d.empty(), "converted mdspan: %s", d.c_str());
+        REQUIRE_OK(facts_ok(sub, k, sh, st, R > 0, collect_facts(c, c.data_handle(), base, R > 0), "mdspan<T const, dextents<J>>(mdspan)"));
+        int const na = collect_view<J, R>(c, base, sh, P);
+        REQUIRE_OK(view_ok(sub, k, sh, st, na, "mdspan<T const, dextents<J>>(mdspan)"));
     }
+#undef VIEW_FACTS
     vf::eval(sub);
 }
 
@@ -746,18 +888,22 @@ void check_mdspan_stride(Case const& k, Shape const& sh, StrideInfo const& si)
         etl::array<I, R> sa{};
         for (std::size_t r = 0; r < R; ++r) { sa[r] = static_cast<I>(si.s[r]); }
         MD const m(base, M(e, sa));
-        auto d = view_facts(m, sh, si.s, true);
-        CHECK(sub, k, d.empty() && m.data_handle() == base && m.is_unique() && m.is_strided(), "mdspan over layout_stride: %s", d.c_str());
-        d = sweep_view<I, R>(m, base, sh, si.s);
-        CHECK(sub, k, d.empty(), "%s (strides %s)", d.c_str(), arr_str(sh.rank, si.s).c_str());
+        REQUIRE_OK(facts_ok(sub, k, sh, si.s, true, collect_facts(m, m.data_handle(), base, true), "mdspan over layout_stride"));
+        bool const flags = m.is_unique() && m.is_strided() && MD::is_always_unique() && MD::is_always_strided() && !MD::is_always_exhaustive();
+        CHECK(sub, k, flags, "mdspan over layout_stride: is_(always_)unique/strided/exhaustive wrong");
+        int const nacc = collect_view<I, R, true>(m, base, sh, rss);
+        REQUIRE_OK(view_ok(sub, k, sh, si.s, nacc, "mdspan over layout_stride"));
+        // (mdspan copy assignment is implicitly deleted on this tree: not callable, not part of the check)
         MD const c(m);
-        MD const c2(base, M(e, sa), etl::default_accessor<int>{}); // (mdspan copy assignment is implicitly deleted on this tree: not callable)
-        d = sweep_view<I, R>(c2, base, sh, si.s);
-        CHECK(sub, k, d.empty() && c.data_handle() == base, "copied mdspan: %s", d.c_str());
+        MD const c2(base, M(e, sa), etl::default_accessor<int>{});
+        REQUIRE_OK(facts_ok(sub, k, sh, si.s, true, collect_facts(c, c.data_handle(), base, true), "copy of an mdspan over layout_stride"));
+        int const na = collect_view<I, R>(c2, base, sh, rss);
+        REQUIRE_OK(view_ok(sub, k, sh, si.s, na, "mdspan(ptr, layout_stride mapping, accessor)"));
     } else {
         auto blk = make_block(1);
         MD const m(blk.get(), M{});
-        CHECK(sub, k, &m() == blk.get() && m.size() == 1 && !m.empty(), "rank-0 mdspan over layout_stride does not refer to element 0");
+        bool const ok = &m() == blk.get() && m.size() == 1 && !m.empty();
+        CHECK(sub, k, ok, "rank-0 mdspan over layout_stride does not refer to element 0");
     }
     vf::eval(sub);
 }
@@ -773,68 +919,65 @@ void check_mdarray(Case const& k, Shape const& sh)
     constexpr bool left   = std::is_same_v<L, etl::layout_left>;
     char const* const sub = left ? "mdarray_left" : "mdarray_right";
     vf::Flight<Case> fl(sub, k);
+    ll g[4]    = {0, 0, 0, 0};
     ll const P = prod(sh);
     ll st[4]   = {0, 0, 0, 0};
     left ? left_strides(sh, st) : right_strides(sh, st);
     E const e = make_all<E, int>(sh);
+    M const me(e);
     A a(e);
     CHECK(sub, k, static_cast<ll>(a.container_size()) == P, "mdarray(extents): container_size() = %lld, expected %lld", static_cast<ll>(a.container_size()), P);
-    auto d = view_facts(a, sh, st, R > 0);
-    CHECK(sub, k, d.empty(), "mdarray(extents): %s", d.c_str());
     int* base = a.container_data();
+    REQUIRE_OK(facts_ok(sub, k, sh, st, R > 0, collect_facts(a, base, base, R > 0), "mdarray(extents)"));
     for (ll i = 0; i < P; ++i) {
-        CHECK(sub, k, base[i] == 0, "mdarray(extents) element %lld is not value-initialised", i);
+        CHECK(sub, k, base[i] == 0, "mdarray(extents): element %lld is not value-initialised", i);
         base[i] = 1000 + static_cast<int>(i);
     }
-    d = sweep_view<I, R>(a, base, sh, st);
-    CHECK(sub, k, d.empty(), "mdarray: %s", d.c_str());
+    int nacc = collect_view<I, R, true>(a, base, sh, P);
+    REQUIRE_OK(view_ok(sub, k, sh, st, nacc, "mdarray"));
     {
         A const& ca = a;
-        CHECK(sub, k, ca.container_data() == base, "const container_data() differs");
-        d = sweep_view<I, R>(ca, base, sh, st);
-        CHECK(sub, k, d.empty(), "const mdarray: %s", d.c_str());
+        CHECK(sub, k, ca.container_data() == base, "const container_data() differs from container_data()");
+        nacc = collect_view<I, R, true>(ca, base, sh, P);
+        REQUIRE_OK(view_ok(sub, k, sh, st, nacc, "const mdarray"));
         auto ms = a.to_mdspan();
         auto cs = ca.to_mdspan();
-        CHECK(sub, k, ms.data_handle() == base && cs.data_handle() == base, "to_mdspan().data_handle() is not container_data()");
-        d = view_facts(ms, sh, st, R > 0);
-        CHECK(sub, k, d.empty(), "to_mdspan(): %s", d.c_str());
-        d = sweep_view<I, R>(ms, base, sh, st);
-        CHECK(sub, k, d.empty(), "to_mdspan(): %s", d.c_str());
-        d = sweep_view<I, R>(cs, base, sh, st);
-        CHECK(sub, k, d.empty(), "const to_mdspan(): %s", d.c_str());
+        REQUIRE_OK(facts_ok(sub, k, sh, st, R > 0, collect_facts(ms, ms.data_handle(), base, R > 0), "mdarray::to_mdspan()"));
+        REQUIRE_OK(facts_ok(sub, k, sh, st, R > 0, collect_facts(cs, cs.data_handle(), base, R > 0), "mdarray::to_mdspan() const"));
+        nacc = collect_view<I, R>(ms, base, sh, P);
+        REQUIRE_OK(view_ok(sub, k, sh, st, nacc, "mdarray::to_mdspan()"));
         etl::mdspan<int, E, L> const conv = a;
-        CHECK(sub, k, conv.data_handle() == base && extents_equal(conv.extents(), sh), "conversion operator to mdspan: wrong data handle or extents");
+        REQUIRE_OK(facts_ok(sub, k, sh, st, R > 0, collect_facts(conv, conv.data_handle(), base, R > 0), "mdarray converted to mdspan"));
     }
-    // other constructors
+    // other constructors (mdarray(extents...) delegates to mdarray(mapping...), so the mapping forms are covered too)
     {
-        A const b1 = [&]<std::size_t... Is>(std::index_sequence<Is...>) { return A(static_cast<int>(sh.e[Is])...); }(std::make_index_sequence<R>{});
-        CHECK(sub, k, static_cast<ll>(b1.container_size()) == P && extents_equal(b1.extents(), sh), "mdarray(rank-many ints): container_size %lld extents %s", static_cast<ll>(b1.container_size()), extents_str(b1.extents()).c_str());
-        constexpr auto dp = dyn_positions<E>();
+        int lastix[4] = {0, 0, 0, 0};
+        last_index(sh, lastix);
+        A const b1 = make_all_impl<A, int>(sh, std::make_index_sequence<R>{});
+        EXT_IS("mdarray(rank-many ints).extents()", b1.extents());
+        CHECK(sub, k, static_cast<ll>(b1.container_size()) == P, "mdarray(rank-many ints): container_size() = %lld, expected %lld", static_cast<ll>(b1.container_size()), P);
         if constexpr (E::rank_dynamic() > 0) {
-            A const b2 = [&]<std::size_t... Js>(std::index_sequence<Js...>) { return A(static_cast<I>(sh.e[dp[Js]])...); }(std::make_index_sequence<E::rank_dynamic()>{});
-            CHECK(sub, k, static_cast<ll>(b2.container_size()) == P && extents_equal(b2.extents(), sh), "mdarray(dynamic-only values): container_size %lld extents %s", static_cast<ll>(b2.container_size()), extents_str(b2.extents()).c_str());
+            A const b2 = make_dyn_impl<A, E, I>(sh, std::make_index_sequence<E::rank_dynamic()>{});
+            EXT_IS("mdarray(dynamic-only values).extents()", b2.extents());
+            CHECK(sub, k, static_cast<ll>(b2.container_size()) == P, "mdarray(dynamic-only values): container_size() = %lld, expected %lld", static_cast<ll>(b2.container_size()), P);
         }
-        M const me(e);
-        A const b3(me);
-        CHECK(sub, k, static_cast<ll>(b3.container_size()) == P && extents_equal(b3.extents(), sh), "mdarray(mapping): container_size %lld", static_cast<ll>(b3.container_size()));
-        A const b4(e, 7);
-        CHECK(sub, k, static_cast<ll>(b4.container_size()) == P && extents_equal(b4.extents(), sh), "mdarray(extents, value): container_size %lld", static_cast<ll>(b4.container_size()));
-        for (ll i = 0; i < P; ++i) { CHECK(sub, k, b4.container_data()[i] == 7, "mdarray(extents, value): element %lld is %d", i, b4.container_data()[i]); }
-        A const b5(me, 9);
-        CHECK(sub, k, static_cast<ll>(b5.container_size()) == P && (P == 0 || b5.container_data()[P - 1] == 9), "mdarray(mapping, value) wrong");
+        A const b4(me, 7);
+        EXT_IS("mdarray(mapping, value).extents()", b4.extents());
+        CHECK(sub, k, static_cast<ll>(b4.container_size()) == P, "mdarray(mapping, value): container_size() = %lld, expected %lld", static_cast<ll>(b4.container_size()), P);
+        for (ll i = 0; i < P; ++i) { CHECK(sub, k, b4.container_data()[i] == 7, "mdarray(mapping, value): element %lld is %d", i, b4.container_data()[i]); }
         HeapBox<int> hb(static_cast<std::size_t>(P));
         for (ll i = 0; i < P; ++i) { hb[static_cast<std::size_t>(i)] = 1000 + static_cast<int>(i); }
-        A b6(e, hb);
-        d = sweep_view<I, R>(b6, b6.container_data(), sh, st);
-        CHECK(sub, k, d.empty() && b6.container_data() != hb.data(), "mdarray(extents, container const&): %s", d.c_str());
-        A b7(me, std::move(hb));
-        d = sweep_view<I, R>(b7, b7.container_data(), sh, st);
-        CHECK(sub, k, d.empty(), "mdarray(mapping, container&&): %s", d.c_str());
-        A b8(b7);
-        A b9(e);
-        b9 = b8;
-        d  = sweep_view<I, R>(b9, b9.container_data(), sh, st);
-        CHECK(sub, k, d.empty() && b9.container_data() != b8.container_data(), "copied mdarray: %s", d.c_str());
+        A const b6(e, hb);
+        CHECK(sub, k, b6.container_data() != hb.data() && static_cast<ll>(b6.container_size()) == P, "mdarray(extents, container const&) does not own a copy of the container");
+        A const b7(e, std::move(hb));
+        A const b8(b7);
+        CHECK(sub, k, b8.container_data() != b7.container_data() && static_cast<ll>(b8.container_size()) == P, "copy of an mdarray shares its container");
+        if (P > 0) {
+            ll const o6 = static_cast<ll>(&call_ix<I, R>(b6, lastix) - b6.container_data());
+            ll const o8 = static_cast<ll>(&call_ix<I, R>(b8, lastix) - b8.container_data());
+            int const v8 = call_ix<I, R>(b8, lastix);
+            CHECK(sub, k, o6 == P - 1 && o8 == P - 1 && v8 == 1000 + static_cast<int>(P - 1), "mdarray(extents, container) / copy: last multi-index refers to container_data()+%lld / +%lld, expected +%lld", o6, o8, P - 1);
+        }
     }
     // etl::array as container (all-static extents)
     if constexpr (E::rank_dynamic() == 0) {
@@ -842,13 +985,13 @@ void check_mdarray(Case const& k, Shape const& sh)
         if constexpr (N > 0) {
             using AA = etl::mdarray<int, E, L, etl::array<int, N>>;
             auto pa  = std::make_unique<AA>(e, 5);
-            CHECK(sub, k, pa->container_size() == N && static_cast<ll>(pa->size()) == P, "mdarray over etl::array: container_size %zu size %lld", pa->container_size(), static_cast<ll>(pa->size()));
+            CHECK(sub, k, pa->container_size() == N && static_cast<ll>(pa->size()) == P, "mdarray over etl::array: container_size() = %zu, size() = %lld", pa->container_size(), static_cast<ll>(pa->size()));
             for (std::size_t i = 0; i < N; ++i) {
                 CHECK(sub, k, pa->container_data()[i] == 5, "mdarray<etl::array>(extents, value): element %zu is %d", i, pa->container_data()[i]);
                 pa->container_data()[i] = 1000 + static_cast<int>(i);
             }
-            d = sweep_view<I, R>(*pa, pa->container_data(), sh, st);
-            CHECK(sub, k, d.empty(), "mdarray over etl::array: %s", d.c_str());
+            nacc = collect_view<I, R>(*pa, pa->container_data(), sh, P);
+            REQUIRE_OK(view_ok(sub, k, sh, st, nacc, "mdarray over etl::array"));
         }
     }
     vf::eval(sub);
@@ -866,62 +1009,113 @@ void check_transpose(Case const& k, Shape const& sh)
     constexpr bool left   = std::is_same_v<L, etl::layout_left>;
     char const* const sub = left ? "transpose_left" : "transpose_right";
     vf::Flight<Case> fl(sub, k);
+    ll g[4] = {0, 0, 0, 0};
     Shape const tsh{2, {sh.e[1], sh.e[0], 0, 0}};
-    ll const P = prod(sh);
+    ll const P  = prod(sh);
     ET const et = make_all<ET, int>(tsh);
     NM const nested(et);
     TM const tm(nested);
     auto const te = tm.extents();
-    CHECK(sub, k, extents_equal(te, sh), "layout_transpose mapping.extents() = %s, expected %s", extents_str(te).c_str(), arr_str(2, sh.e).c_str());
+    EXT_IS("layout_transpose mapping.extents()", te);
     CHECK(sub, k, static_cast<ll>(tm.required_span_size()) == P, "required_span_size() = %lld, expected %lld", static_cast<ll>(tm.required_span_size()), P);
-    CHECK(sub, k, TM::is_always_unique() && TM::is_always_strided() && tm.is_unique() && tm.is_strided(), "is_(always_)unique/strided not true");
-    // transposed row-major over (e1,e0) is column-major over (e0,e1) and vice versa
+    bool const flags = TM::is_always_unique() && TM::is_always_strided() && tm.is_unique() && tm.is_strided();
+    CHECK(sub, k, flags, "is_(always_)unique/strided not true");
+    // the transpose of row-major over (e1,e0) is column-major over (e0,e1), and vice versa
     ll st[4] = {0, 0, 0, 0};
     left ? right_strides(sh, st) : left_strides(sh, st);
-    CHECK(sub, k, static_cast<ll>(tm.stride(0)) == st[0] && static_cast<ll>(tm.stride(1)) == st[1], "stride(0),stride(1) = %lld,%lld expected %lld,%lld", static_cast<ll>(tm.stride(0)), static_cast<ll>(tm.stride(1)), st[0], st[1]);
-    auto const d1 = sweep_mapping<I, 2>(tm, sh, P, [&](int const* ix) { return left ? off_right(sh, ix) : off_left(sh, ix); });
-    CHECK(sub, k, d1.empty(), "%s", d1.c_str());
-    CHECK(sub, k, extents_equal(tm.nested_mapping().extents(), tsh), "nested_mapping().extents() wrong");
+    ll const s0 = static_cast<ll>(tm.stride(0));
+    ll const s1 = static_cast<ll>(tm.stride(1));
+    CHECK(sub, k, s0 == st[0] && s1 == st[1], "stride(0),stride(1) = %lld,%lld expected %lld,%lld", s0, s1, st[0], st[1]);
+    collect_offsets<I, 2>(tm, sh, g_offs[0]);
+    REQUIRE_OK(offsets_ok(sub, k, sh, g_offs[0], P, left ? Formula::right : Formula::left, nullptr, "mapping"));
+    {
+        Shape const& shape_of_nested = tsh;
+        ll gn[4]                     = {0, 0, 0, 0};
+        get_ext(tm.nested_mapping().extents(), gn);
+        REQUIRE_OK(ext_ok(sub, k, shape_of_nested, gn, "nested_mapping().extents()"));
+    }
     // mdspan over the transposed layout
     using MD  = etl::mdspan<int, E, LT>;
     auto blk  = make_block(P);
     int* base = blk.get();
     MD const m(base, tm);
-    auto d = view_facts(m, sh, st, true);
-    CHECK(sub, k, d.empty() && m.data_handle() == base, "mdspan over layout_transpose: %s", d.c_str());
-    d = sweep_view<I, 2>(m, base, sh, st);
-    CHECK(sub, k, d.empty(), "mdspan over layout_transpose: %s", d.c_str());
+    REQUIRE_OK(facts_ok(sub, k, sh, st, true, collect_facts(m, m.data_handle(), base, true), "mdspan over layout_transpose"));
+    int const nacc = collect_view<I, 2, true>(m, base, sh, P);
+    REQUIRE_OK(view_ok(sub, k, sh, st, nacc, "mdspan over layout_transpose"));
     vf::eval(sub);
 }
+#undef EXT_IS
 
-// ------------------------------------------------------------------------------------------------ per-type driver
+// ------------------------------------------------------------------------------------------------ per-type table + driver
+struct TypeOps {
+    char const* name;
+    int rank;
+    std::size_t st[4];      // static extents (D = dynamic)
+    unsigned long long imax; // numeric_limits<index_type>::max()
+    void (*extents)(Case const&, Shape const&);
+    void (*lr[2])(Case const&, Shape const&);     // layout_left, layout_right
+    void (*md[2])(Case const&, Shape const&);     // mdspan over left/right
+    void (*arr[2])(Case const&, Shape const&);    // mdarray over left/right
+    void (*tr[2])(Case const&, Shape const&);     // layout_transpose<left/right> (rank 2 only, else null)
+    void (*stride)(Case const&, Shape const&, StrideInfo const&);
+    void (*mdstride)(Case const&, Shape const&, StrideInfo const&);
+};
 template <typename E>
-void run_type(char const* name)
+auto ops_for(char const* name) -> TypeOps
 {
-    using I           = typename E::index_type;
-    constexpr int R   = static_cast<int>(E::rank());
-    constexpr auto dp = dyn_positions<E>();
-    constexpr int RD  = static_cast<int>(E::rank_dynamic());
-    int const base    = g_ctl.maxext + 1;
-    ll nshapes        = 1;
+    TypeOps t{};
+    t.name = name;
+    t.rank = static_cast<int>(E::rank());
+    for (std::size_t r = 0; r < E::rank(); ++r) { t.st[r] = E::static_extent(r); }
+    t.imax     = imax<typename E::index_type>();
+    t.extents  = &check_extents<E>;
+    t.lr[0]    = &check_lr<E, etl::layout_left>;
+    t.lr[1]    = &check_lr<E, etl::layout_right>;
+    t.md[0]    = &check_mdspan_lr<E, etl::layout_left>;
+    t.md[1]    = &check_mdspan_lr<E, etl::layout_right>;
+    t.arr[0]   = &check_mdarray<E, etl::layout_left>;
+    t.arr[1]   = &check_mdarray<E, etl::layout_right>;
+    t.stride   = &check_stride<E>;
+    t.mdstride = &check_mdspan_stride<E>;
+    if constexpr (E::rank() == 2) {
+        t.tr[0] = &check_transpose<E, etl::layout_left>;
+        t.tr[1] = &check_transpose<E, etl::layout_right>;
+    }
+    return t;
+}
+
+void run_type(TypeOps const& t)
+{
+    int const R    = t.rank;
+    int dp[4]      = {0, 0, 0, 0};
+    int RD         = 0;
+    for (int r = 0; r < R; ++r) {
+        if (t.st[r] == D) { dp[RD++] = r; }
+    }
+    int const base = g_ctl.maxext + 1;
+    ll nshapes     = 1;
     for (int j = 0; j < RD; ++j) { nshapes *= base; }
     bool const mixed = R >= 2 && RD > 0 && RD < R;
+    static char const* const sub_lr[2]  = {"layout_left", "layout_right"};
+    static char const* const sub_md[2]  = {"mdspan_left", "mdspan_right"};
+    static char const* const sub_arr[2] = {"mdarray_left", "mdarray_right"};
+    static char const* const sub_tr[2]  = {"transpose_left", "transpose_right"};
     for (ll code = 0; code < nshapes; ++code) {
         Shape sh{R, {0, 0, 0, 0}};
-        for (int r = 0; r < R; ++r) { sh.e[r] = E::static_extent(static_cast<std::size_t>(r)) == D ? 0 : static_cast<ll>(E::static_extent(static_cast<std::size_t>(r))); }
+        for (int r = 0; r < R; ++r) { sh.e[r] = t.st[r] == D ? 0 : static_cast<ll>(t.st[r]); }
         ll c = code;
         for (int j = RD - 1; j >= 0; --j) {
-            sh.e[dp[static_cast<std::size_t>(j)]] = c % base;
+            sh.e[dp[j]] = c % base;
             c /= base;
         }
-        Case k{name, R, {static_cast<int>(sh.e[0]), static_cast<int>(sh.e[1]), static_cast<int>(sh.e[2]), static_cast<int>(sh.e[3])}, 0};
+        Case k{t.name, R, {static_cast<int>(sh.e[0]), static_cast<int>(sh.e[1]), static_cast<int>(sh.e[2]), static_cast<int>(sh.e[3])}, 0};
         if (g_ctl.filter) {
             bool same = true;
             for (int r = 0; r < R; ++r) { same = same && g_ctl.fe[r] == k.e[r]; }
             if (!same) { continue; }
         }
         // precondition of the library (and of std): the size of the index space is representable in index_type
-        if (static_cast<unsigned long long>(prod(sh)) > imax<I>()) {
+        if (static_cast<unsigned long long>(prod(sh)) > t.imax) {
             vf::count("shape.skipped_not_representable");
             continue;
         }
@@ -933,40 +1127,24 @@ void run_type(char const* name)
             if (zero || mixed || extra) { vf::nontrivial_count(); }
         };
         if (want("extents", k)) {
-            check_extents<E>(k, sh);
+            t.extents(k, sh);
             nt(false);
         }
-        if (want("layout_left", k)) {
-            check_lr<E, etl::layout_left>(k, sh);
-            nt(false);
-        }
-        if (want("layout_right", k)) {
-            check_lr<E, etl::layout_right>(k, sh);
-            nt(false);
-        }
-        if (want("mdspan_left", k)) {
-            check_mdspan_lr<E, etl::layout_left>(k, sh);
-            nt(false);
-        }
-        if (want("mdspan_right", k)) {
-            check_mdspan_lr<E, etl::layout_right>(k, sh);
-            nt(false);
-        }
-        if (want("mdarray_left", k)) {
-            check_mdarray<E, etl::layout_left>(k, sh);
-            nt(false);
-        }
-        if (want("mdarray_right", k)) {
-            check_mdarray<E, etl::layout_right>(k, sh);
-            nt(false);
-        }
-        if constexpr (R == 2) {
-            if (want("transpose_left", k)) {
-                check_transpose<E, etl::layout_left>(k, sh);
+        for (int l = 0; l < 2; ++l) {
+            if (want(sub_lr[l], k)) {
+                t.lr[l](k, sh);
                 nt(false);
             }
-            if (want("transpose_right", k)) {
-                check_transpose<E, etl::layout_right>(k, sh);
+            if (want(sub_md[l], k)) {
+                t.md[l](k, sh);
+                nt(false);
+            }
+            if (want(sub_arr[l], k)) {
+                t.arr[l](k, sh);
+                nt(false);
+            }
+            if (t.tr[l] != nullptr && want(sub_tr[l], k)) {
+                t.tr[l](k, sh);
                 nt(false);
             }
         }
@@ -979,8 +1157,8 @@ void run_type(char const* name)
             if (!w1 && !w2) { continue; }
             StrideInfo const si = make_strides(sh, v);
             // preconditions: strides and required span size representable in index_type
-            bool rep = static_cast<unsigned long long>(rss_strided(sh, si.s)) <= imax<I>();
-            for (int r = 0; r < R; ++r) { rep = rep && static_cast<unsigned long long>(si.s[r]) <= imax<I>(); }
+            bool rep = static_cast<unsigned long long>(rss_strided(sh, si.s)) <= t.imax;
+            for (int r = 0; r < R; ++r) { rep = rep && static_cast<unsigned long long>(si.s[r]) <= t.imax; }
             if (!rep) {
                 vf::count("stride.skipped_not_representable");
                 continue;
@@ -989,11 +1167,11 @@ void run_type(char const* name)
             vf::label("stride.permuted", si.permuted);
             vf::label("stride.padded", si.padded);
             if (w1) {
-                check_stride<E>(kv, sh, si);
+                t.stride(kv, sh, si);
                 nt(!si.canonical);
             }
             if (w2) {
-                check_mdspan_stride<E>(kv, sh, si);
+                t.mdstride(kv, sh, si);
                 nt(!si.canonical);
             }
             if (!si.canonical && R >= 3 && !zero && (code % 37) == 5 && v % 11 == 4) {
@@ -1006,12 +1184,8 @@ void run_type(char const* name)
     }
 }
 
-struct Entry {
-    char const* name;
-    void (*run)(char const*);
-};
-#define C19_TYPE(name, I, ...) Entry{name, &run_type<etl::extents<I __VA_OPT__(, ) __VA_ARGS__>>},
-Entry const g_table[] = {
+#define C19_TYPE(name, I, ...) ops_for<etl::extents<I __VA_OPT__(, ) __VA_ARGS__>>(name),
+TypeOps const g_table[] = {
 #include C19_TABLE
 };
 
@@ -1019,11 +1193,11 @@ Entry const g_table[] = {
 
 void vf_run(vf::Ctx& c)
 {
-    g_ctl.maxext = c.thorough() ? 4 : 3;
+    g_ctl.maxext    = c.thorough() ? 4 : 3;
     std::uint64_t i = 0;
     for (auto const& t : g_table) {
         if (!c.mine(i++)) { continue; }
-        t.run(t.name);
+        run_type(t);
         vf::count("types_instantiated");
     }
 }
@@ -1048,7 +1222,7 @@ std::string vf_replay(std::string const& sub, std::string const& cs)
     for (int r = 0; r < g_ctl.frank; ++r) { g_ctl.maxext = std::max(g_ctl.maxext, g_ctl.fe[r]); }
     for (auto const& t : g_table) {
         if (std::string(t.name) == type) {
-            t.run(t.name);
+            run_type(t);
             if (!g_ctl.matched) { return "case not reached: no such shape / sub-check / variant for type " + std::string(type) + " (" + sub + ": " + cs + ")"; }
             return "";
         }
